@@ -29,7 +29,18 @@ BootstrapCorrection::BootstrapCorrection(BootstrapCorrection&& correction) noexc
 
 BootstrapCorrection& BootstrapCorrection::operator=(BootstrapCorrection&& correction) noexcept
 {
+    if (this == &correction)
+        return *this;
+
     PFCorrection::operator=(std::move(correction));
+
+    measurement_model_ = std::move(correction.measurement_model_);
+
+    likelihood_model_ = std::move(correction.likelihood_model_);
+
+    valid_likelihood_ = correction.valid_likelihood_;
+
+    likelihood_ = std::move(correction.likelihood_);
 
     return *this;
 }
